@@ -394,6 +394,89 @@ def corpus_methods():
     return out
 
 
+REPLACE_PATTERNS = {
+    "dna": [["A", "C"], ["C", "G"], ["AC", "GG"], ["CG", "TA"], ["CTT", "NNN"], ["GT", "AA"], ["TTC", "GAG"], ["AA", "GG"], ["AC", ""], ["G", "TT"]],
+    "rna": [["A", "C"], ["AC", "GG"], ["CG", "UA"], ["CUU", "NNN"], ["GU", "AA"], ["UUC", "GAG"], ["AA", "GG"], ["AC", "G"]],
+    "protein": [["A", "K"], ["AC", "KL"], ["DE", "ST"], ["FGH", "WYV"], ["LL", "MM"], ["AC", "K"]],
+    "text": [["A", "Z"], ["AB", "XY"], ["BC", "TU"], ["XYZ", "ABC"], ["AA", "BB"], ["AB", "X"]],
+}
+REPLACE_VIEWS = [[], [["slice", None, None, -1]], [["rc"]], [["slice", 2, -2, None]], [["slice", 3, None, None], ["slice", None, None, -1]],
+                 [["rc"], ["slice", 1, -3, None]], [["slice", None, None, -1], ["slice", 2, 9, None]], [["slice", 1, None, 2]],
+                 [["slice", -2, 1, -1]], [["slice", None, None, -2]], [["slice", 4, 12, None], ["rc"], ["slice", 1, None, None]]]
+
+
+def replace_cases(rng, n_random):
+    """old-style Sequence.replace (new-style sequences have no replace) with 1-, 2- and 3-character patterns on whole /
+    partial, forward / reversed / strided views; patterns: a fixed list per moltype + words cut out of the displayed string"""
+    out = []
+    # the witnesses of the four listed classes (known_findings C01-K7a..d), each evaluated exactly once
+    W = "ACGGTACTTCGACAAGTTCCGA"
+    for mt, p, ops, pat in (("dna", W, [["slice", 2, -2, None]], ["CG", "TA"]),
+                            ("dna", W, [["slice", 1, None, 2]], ["AC", "GG"]),
+                            ("dna", W, [["slice", None, None, -1]], ["AC", ""]),
+                            ("text", "ABABBXXBBBAXYYYBXBYAX", [["slice", None, None, -1]], ["BB", "YX"])):
+        out.append(dict(kind="replace", impl="old", mt=mt, p=p, off=0, ops=ops, patterns=[pat], starts=[], block="replace",
+                        origin="standalone", known_witness=True))
+    parents = {"dna": ["ACGGTACTTCGACAAGTTCCGA", "AACCTTGGAACGCGTTAAGT"], "rna": ["ACGGUACUUCGACAAGUUCCGA"],
+               "protein": ["ACDEFGHIKLLMACDESTFGH"], "text": ["ABCXYZABBCAATUXYZAB"]}
+    for mt, ps in parents.items():
+        for p in ps:
+            for ops in REPLACE_VIEWS:
+                ops2 = [o if (o[0] != "rc" or mt in ("dna", "rna")) else ["slice", None, None, -1] for o in ops]
+                for off in (0, 3):
+                    out.append(dict(kind="replace", impl="old", mt=mt, p=p, off=off, ops=ops2, patterns=REPLACE_PATTERNS[mt],
+                                    starts=[0, 1, 2, 5, 7, 11], block="replace", origin="standalone" if off else "coll_get"))
+    for i in range(n_random):
+        mt = rng.choice(["dna", "dna", "dna", "rna", "protein", "text"])
+        n = rng.choice([3, 5, 8, 13, 21, 30])
+        alpha = {"dna": "ACGT", "rna": "ACGU", "protein": "ACDEKL", "text": "ABXY"}[mt]      # small alphabets: patterns recur
+        p = "".join(rng.choice(alpha) for _ in range(n))
+        ops = []
+        cur = n
+        for _ in range(rng.randint(0, 3)):
+            r = rng.random()
+            if r < 0.35:
+                ops.append(["rc"] if mt in ("dna", "rna") else ["slice", None, None, -1])
+            else:
+                a, b = rand_bound(rng, cur), rand_bound(rng, cur)
+                c = rng.choice([None, None, 1, -1, -1, 2, -2, 3])
+                ops.append(["slice", a, b, c])
+                cur = len(range(cur)[a:b:c])
+        pats = []
+        for _ in range(4):
+            k = rng.choice([1, 2, 2, 3, 3])
+            o = "".join(rng.choice(alpha) for _ in range(k))
+            nw = "".join(rng.choice(alpha) for _ in range(k if rng.random() < 0.85 else rng.choice([0, 1, 4])))
+            pats.append([o, nw])
+        out.append(dict(kind="replace", impl="old", mt=mt, p=p, off=rng.choice([0, 0, 3]), ops=ops, patterns=pats,
+                        starts=[rng.randint(0, 40) for _ in range(3)], block="replace",
+                        origin=rng.choice(["standalone", "coll_get", "aln_get"])))
+    return out
+
+
+def check_replace(rep, cases, impl, stats):
+    st = stats.setdefault("replace", dict(cases=0, observations=0, nontrivial=0))
+    cells: dict = {}
+    for c, ir in zip(cases, impl):
+        st["cases"] += 1
+        if not isinstance(ir, dict) or "exc" in ir:
+            rep.violation(f"runner:replace:{c['impl']}", dict(case=c, observed_impl=ir, broken="the implementation runner itself failed"))
+            continue
+        st["observations"] += ir["n"]
+        for cls, k in (ir.get("steered") or {}).items():
+            steer = st.setdefault("steered_away_from_listed_classes", {})
+            steer[cls] = steer.get(cls, 0) + k
+        for cell, k in ir["counts"].items():
+            cells[cell] = cells.get(cell, 0) + k
+            if first_time(dict(c, cell=cell)) and "rev-view" in cell and not cell.endswith("len1"):
+                st["nontrivial"] += k
+        for b in ir["bad"]:
+            rep.violation(b["key"], dict(case=c, finding=b, expected_by_spec=b["on_fresh"], observed_impl=b["on_view"],
+                                         broken="str(view.replace(old, new)) differs from str(view).replace(old, new)"))
+    st["stream_view_partial_patternlength"] = dict(sorted(cells.items()))
+    return cells
+
+
 def comp_cases():
     return [dict(kind="comptable", mt="dna", chars="ACGTNRYMKBVDHSW-?", block="comp"),
             dict(kind="comptable", mt="rna", chars="ACGUNRYMKBVDHSW-?", block="comp"),
@@ -607,8 +690,10 @@ def run(tier: str, seed: int) -> int:
     schains = corpus_schains() + [c for c in co if c["kind"] == "schain"] + [rand_schain(rng, i) for i in range(n_s)]
     methods = corpus_methods() + [c for c in co if c["kind"] == "methods"] + [rand_methods(rng, force_rev=(i % 3 == 0), i=i) for i in range(n_m)]
     phase1 = d1 + ctor_cases(tier) + sdv_offset_cases() + comp_cases() + kchains + schains
-    impl1 = core.run_impl_sharded(IMPL, phase1 + methods)
-    impl_m = impl1[len(phase1):]
+    repl = replace_cases(rng, (150 if tier == "quick" else 3000) * mult)
+    impl1 = core.run_impl_sharded(IMPL, phase1 + methods + repl)
+    impl_r = impl1[len(phase1) + len(methods):]
+    impl_m = impl1[len(phase1): len(phase1) + len(methods)]
     impl1 = impl1[: len(phase1)]
     model_ok = True
     try:
@@ -624,6 +709,7 @@ def run(tier: str, seed: int) -> int:
     else:
         compare(rep, phase1, impl1, [ir.get("digest") if isinstance(ir, dict) else None for ir in impl1], stats, disagreements)
     listed, skipped = check_methods(rep, methods, impl_m, stats)
+    check_replace(rep, repl, impl_r, stats)
 
     # ---- phase 2: depth 2 from every distinct view state seen in depth 1
     d2 = depth2_cases(tier, d1, impl1[: len(d1)])
@@ -663,6 +749,11 @@ def run(tier: str, seed: int) -> int:
             "the pinned old-style Sequence.to_moltype and the pinned new-style Sequence.copy with an annotation offset violate the "
             "chain statement (theorems to_rna_old_refuted, copy_new_refuted); chain_spec is proved for the repaired variant "
             "(Model.View.Fixed) on all operations and for the pinned variants on the remaining operations",
+            "old-style Sequence.replace (new-style has none) is compared with str(view).replace on 1-/2-/3-character patterns over whole / "
+            "partial / reversed / strided views; four structural classes in which the pinned code matches against the parent string are "
+            "open known findings C01-K7a..d (keys replace:partial-view-straddle, replace:strided-view-multichar, "
+            "replace:length-changing:partial-or-reversed-view, replace:reversed-view-overlapping-matches): one corpus witness each, the "
+            "generators steer away from them elsewhere; every other replace case is in the clean stream and a difference there is a VIOLATION",
             "a SeqDataView constructed directly with offset != 0 (not reachable through the library) is compared "
             "model-vs-implementation only",
         ],
